@@ -98,7 +98,7 @@ def diff(before, after, allowed_path_entries=()):
     for k in new_mods:
         m = after["modules"][k]
         f = getattr(m, "__file__", None)
-        prefixes = tuple({sys.prefix, sys.base_prefix, getattr(sys, "exec_prefix", sys.prefix), "/repo", "/verif"})
+        prefixes = tuple({sys.prefix, sys.base_prefix, getattr(sys, "exec_prefix", sys.prefix), os.environ.get("VERIF_REPO", "/repo"), "/repo", "/verif"})
         if type(m).__name__ in ("FakeModule", "FakeNumpyModule"):
             d_new.append(k + " (fake)")
         elif f and not str(f).startswith(prefixes):
@@ -138,7 +138,7 @@ def restore(before):
         if k not in before["modules"]:
             m = sys.modules[k]
             f = getattr(m, "__file__", None) or ""
-            if type(m).__name__ in ("FakeModule", "FakeNumpyModule") or not str(f).startswith((sys.prefix, sys.base_prefix, "/repo", "/verif")):
+            if type(m).__name__ in ("FakeModule", "FakeNumpyModule") or not str(f).startswith((sys.prefix, sys.base_prefix, os.environ.get("VERIF_REPO", "/repo"), "/repo", "/verif")):
                 del sys.modules[k]
     for k, m in before["modules"].items():
         sys.modules.setdefault(k, m)
